@@ -2,7 +2,7 @@
 //! `Write`, and the BufferedSpyMetricSink over a bounded, never-drained channel.
 //!
 //! case:  W <cap> <ending-hex> <ops> <script>        (writer over scripted Write)
-//!        S <cap|d> <queue> <ops>                     (BufferedSpyMetricSink, d = default capacity)
+//!        S <cap|d> <queue|u> <ops>                   (BufferedSpyMetricSink, d = default capacity, u = unbounded queue)
 //!   ops    = comma separated  E<hex> | F   ("-" = none)
 //!   script = comma separated  o | i | e<id>  ("-" = empty; exhausted = o)
 //! observation:  R:<res>,..|L:<op>:<hex>:<outcome>;..
@@ -161,8 +161,8 @@ fn run_writer(cap: usize, ending: &[u8], ops: &[Op], script: Vec<Outcome>) -> St
 /// BufferedSpyMetricSink with a bounded queue that is never drained during the case:
 /// the first `queue` underlying writes succeed, every later one fails ("channel full").
 /// Only successful writes are observable (as messages on the receiver).
-fn run_spy(cap: Option<usize>, queue: usize, ops: &[Op]) -> String {
-    let (rx, sink) = BufferedSpyMetricSink::with_capacity(Some(queue), cap);
+fn run_spy(cap: Option<usize>, queue: Option<usize>, ops: &[Op]) -> String {
+    let (rx, sink) = BufferedSpyMetricSink::with_capacity(queue, cap);
     let mut results: Vec<String> = vec![];
     let mut sink = Some(sink);
     for op in ops {
@@ -198,7 +198,7 @@ pub fn run_case(line: &str) -> String {
         }
         "S" => {
             let cap = if t[1] == "d" { None } else { Some(t[1].parse().unwrap()) };
-            let queue: usize = t[2].parse().unwrap();
+            let queue: Option<usize> = if t[2] == "u" { None } else { Some(t[2].parse().unwrap()) };
             let ops = parse_ops(t[3]);
             run_spy(cap, queue, &ops)
         }
